@@ -275,7 +275,9 @@ def run_unit(unit, case, tier="quick"):
             excfree.add(solve.Verdict(solve.PROVED, "engine", 0, reason="returns"), ptag)
             with use_state(out.state):
                 goals = list(unit.ensures(ctx, case, inp, out))
-            for cn, goal in goals:
+            for gt in goals:
+                cn, goal = gt[0], gt[1]
+                gopts = gt[2] if len(gt) > 2 else {}
                 ob = clause_res.setdefault(cn, ObResult(f"{uname}:{cn}"))
                 if isinstance(goal, (bool,)):
                     gz = z3.BoolVal(goal)
@@ -283,7 +285,11 @@ def run_unit(unit, case, tier="quick"):
                     gz = sv.zb(goal)
                 else:
                     gz = goal
-                ob.add(solve.prove(assum, gz, timeout, unit.solver_opts), ptag)
+                extra_as = [sv.zb(x) if isinstance(x, SV) else x for x in gopts.get("assume", []) if not isinstance(x, bool) or not x]
+                extra_as = [z3.BoolVal(False) if isinstance(x, bool) else x for x in extra_as]
+                ob.add(solve.prove(assum + extra_as, gz, gopts.get("timeout", timeout),
+                                    dict(gopts.get("solver_opts", unit.solver_opts) or {}, rewrites=gopts.get("rewrites"),
+                                         ring_only=gopts.get("ring_only", False), try_eval=gopts.get("try_eval", False))), ptag)
         # cover: at least one returning path is feasible
         cover = ObResult(f"{uname}:cover")
         ncov = 0
@@ -327,3 +333,15 @@ def run_unit(unit, case, tier="quick"):
         res["trace"] = traceback.format_exc()[-2500:]
     res["wall_s"] = round(time.time() - t0, 3)
     return res
+
+
+def prove_lemmas(prefix, lemmas, timeout=20, opts=None):
+    """lemmas: [(name, goal)] on fresh variables, no assumptions -> obligation dicts (for extra_checks)"""
+    out = []
+    with use_state(State()):
+        for name, goal in lemmas:
+            ob = ObResult(f"{prefix}:{name}")
+            gz = z3.BoolVal(goal) if isinstance(goal, bool) else (sv.zb(goal) if isinstance(goal, SV) else goal)
+            ob.add(solve.prove([], gz, timeout, opts))
+            out.append(ob.finish().as_dict())
+    return out
